@@ -12,10 +12,12 @@ import (
 	"encoding/json"
 	"errors"
 	"fmt"
+	"math"
 	"os"
 	"path/filepath"
 	"runtime/pprof"
 	"sort"
+	"strconv"
 	"strings"
 	"time"
 
@@ -87,9 +89,9 @@ func spanDefSafe(name string) (d trace.C13Span) {
 
 // clocks (logical merge clock, tsTable.setMergeNow)
 var clocks = map[string]int64{
-	"immature": t0,                                   // frontier 9h: nothing is mature
-	"partial":  t0 + hour + int64(time.Second),       // frontier 10h+1s: A mature, B immature
-	"mature":   t0 + 5*hour,                          // everything mature
+	"immature": t0,                                    // frontier 9h: nothing is mature
+	"partial":  t0 + hour + int64(time.Second),        // frontier 10h+1s: A mature, B immature
+	"mature":   t0 + 5*hour,                           // everything mature
 	"boundary": t0 + hour + 3*int64(time.Millisecond), // frontier == max timestamp of A3 exactly (inclusive boundary)
 }
 
@@ -97,7 +99,7 @@ var clocks = map[string]int64{
 type Cfg struct {
 	Sampler   string `json:"sampler"` // none keep-all drop-A drop-B drop-all error panic mismatch drop-all/finalize-only drop-all/pipeline-off
 	Clock     string `json:"clock"`
-	Mode      string `json:"mode"` // arrival alphabet: "full" (all orders) or "layout" (fixed out-of-order arrival sequence per trace)
+	Mode      string `json:"mode"`  // arrival alphabet: "full" (all orders) or "layout" (fixed out-of-order arrival sequence per trace)
 	Spans     string `json:"spans"` // universe, e.g. "A1,A2,A3,B1,B2"
 	ForceSlow bool   `json:"force_slow,omitempty"`
 	FullProj  bool   `json:"full_projection,omitempty"` // sampler projects tags+span ids+spans (decoded staging instead of raw staging)
@@ -108,6 +110,11 @@ type Cfg struct {
 	Big      string `json:"big,omitempty"`       // id of the oversized trace
 	BigKind  string `json:"big_kind,omitempty"`  // "split": >= one block (2 MiB) -> stored in several blocks; "budget": above the per-trace staging budget
 	MemLimit uint64 `json:"mem_limit,omitempty"` // protector memory limit (the staging budgets derive from it)
+	// round 2
+	Segs    int   `json:"segs,omitempty"`    // > 0: every batch belongs to one of Segs segments (liaison write queue: memory parts of several segments in one table)
+	Thresh  int64 `json:"thresh,omitempty"`  // sampler "short": drops a trace iff the view it is handed has MaxTS-MinTS < Thresh (content-dependent verdict)
+	Fillers int   `json:"fillers,omitempty"` // big_kind "batch-edge": number of 2 MiB single-block traces sorted before the split trace
+	TailB   bool  `json:"tail_b,omitempty"`  // big_kind "batch-edge": the last span of the split trace arrives in the second part
 }
 
 func (c Cfg) String() string {
@@ -117,6 +124,15 @@ func (c Cfg) String() string {
 	}
 	if c.FullProj {
 		s += "/proj"
+	}
+	if c.Segs > 0 {
+		s += fmt.Sprintf("/segs=%d", c.Segs)
+	}
+	if c.Sampler == "short" {
+		s += fmt.Sprintf("/thresh=%dus", c.Thresh/1000)
+	}
+	if c.BigKind == "batch-edge" {
+		s += fmt.Sprintf("/fillers=%d/tailB=%v", c.Fillers, c.TailB)
 	}
 	if c.N > 0 {
 		s += fmt.Sprintf("/n=%d", c.N)
@@ -138,18 +154,27 @@ type Op struct {
 	Mid   string   `json:"mid,omitempty"`   // merge-like ops: "" | "W2" (a part is introduced after the merge produced its files and revalidated, before its
 	//                                          introduction is applied) | "W1" (a part is introduced while the merge is running: inside the sampler call)
 	MidBatch []string `json:"mid_batch,omitempty"`
+	Seg      int      `json:"seg,omitempty"`     // W: segment of the batch (configurations with segs > 0)
+	MidSeg   int      `json:"mid_seg,omitempty"` // segment of the mid batch
 }
 
 func (o Op) String() string {
 	s := o.K
 	switch o.K {
 	case "W":
+		if o.Seg > 0 {
+			s += fmt.Sprintf("@s%d", o.Seg)
+		}
 		s += "[" + strings.Join(o.Batch, " ") + "]"
 	case "M":
 		s += fmt.Sprint(o.Parts)
 	}
 	if o.Mid != "" {
-		s += "+" + o.Mid + "[" + strings.Join(o.MidBatch, " ") + "]"
+		s += "+" + o.Mid
+		if o.MidSeg > 0 {
+			s += fmt.Sprintf("@s%d", o.MidSeg)
+		}
+		s += "[" + strings.Join(o.MidBatch, " ") + "]"
 	}
 	return s
 }
@@ -178,6 +203,17 @@ type sampler struct {
 	hook  func() // W1: fired once inside Decide
 	calls int
 	seen  map[string]int // trace id -> number of Decide calls that contained it
+	views []view         // what the sampler was handed in this step, one entry per (Decide call, trace)
+}
+
+// view is what one Decide call was shown of one trace.
+type view struct {
+	Trace   string   `json:"trace"`
+	SpanIDs []string `json:"span_ids,omitempty"` // only with a projecting sampler
+	MinTS   int64    `json:"min_ts"`
+	MaxTS   int64    `json:"max_ts"`
+	Call    int      `json:"call"`
+	Keep    bool     `json:"keep"`
 }
 
 func (s *sampler) Kind() sdk.Kind { return sdk.KindSampler }
@@ -189,17 +225,32 @@ func (s *sampler) Project() sdk.Projection {
 	return sdk.Projection{}
 }
 
-func (s *sampler) Decide(b *sdk.TraceBatch) (sdk.Verdict, error) {
+func (s *sampler) Decide(b *sdk.TraceBatch) (_ sdk.Verdict, _ error) {
+	var keep []bool
 	s.calls++
+	first := len(s.views)
 	for i := range b.Traces {
 		s.seen[b.Traces[i].TraceID]++
+		// deep copies: the batch's strings alias engine buffers that are recycled after the call
+		ids := make([]string, len(b.Traces[i].SpanIDs))
+		for k, id := range b.Traces[i].SpanIDs {
+			ids[k] = strings.Clone(id)
+		}
+		s.views = append(s.views, view{Trace: strings.Clone(b.Traces[i].TraceID), MinTS: b.Traces[i].MinTS, MaxTS: b.Traces[i].MaxTS, Call: s.calls, SpanIDs: ids})
 	}
+	defer func() { // record the verdicts of a call that returns normally
+		for i := range keep {
+			if first+i < len(s.views) {
+				s.views[first+i].Keep = keep[i]
+			}
+		}
+	}()
 	if h := s.hook; h != nil {
 		s.hook = nil
 		h()
 	}
 	n := len(b.Traces)
-	keep := make([]bool, n)
+	keep = make([]bool, n)
 	kind := s.kind
 	if i := strings.IndexByte(kind, '/'); i >= 0 {
 		kind = kind[:i]
@@ -214,6 +265,10 @@ func (s *sampler) Decide(b *sdk.TraceBatch) (sdk.Verdict, error) {
 			keep[i] = b.Traces[i].TraceID != kind[5:]
 		}
 	case "drop-all":
+	case "short": // content-dependent: the verdict is a function of the time bounds the sampler is handed
+		for i := range keep {
+			keep[i] = b.Traces[i].MaxTS-b.Traces[i].MinTS >= s.cfg.Thresh
+		}
 	case "pattern", "list":
 		for i := range keep {
 			keep[i] = !wouldDrop(s.cfg, b.Traces[i].TraceID)
@@ -244,7 +299,7 @@ func wouldDrop(c Cfg, t string) bool {
 			}
 		}
 		return false
-	case "drop-all":
+	case "drop-all", "short": // "short": may drop any trace (whether it does is read from the recorded verdicts)
 		return true
 	case "drop-A":
 		return t == "A"
@@ -281,12 +336,13 @@ type partObs struct {
 	Total  uint64              `json:"total"`
 	Blocks int                 `json:"blocks"`
 	Mem    bool                `json:"mem"`
+	Seg    int64               `json:"seg,omitempty"` // memory parts: segment id
 }
 
 type obs struct {
 	Visible  map[string][]string `json:"visible"` // trace -> span ids as returned by the query path, sorted
 	Corrupt  []string            `json:"corrupt,omitempty"`
-	Sidx     map[string][]int64  `json:"sidx"` // trace -> keys (sorted, with multiplicity)
+	Sidx     map[string][]int64  `json:"sidx"`    // trace -> keys (sorted, with multiplicity)
 	Ordered  map[string][]string `json:"ordered"` // trace -> span ids returned by the ordered (sidx-driven) query, sorted
 	OrdSeq   []string            `json:"ord_seq"` // trace ids in the order the ordered query produced them
 	SidxBad  []string            `json:"sidx_bad,omitempty"`
@@ -310,8 +366,16 @@ func observe(tb *trace.C13Table, light bool) (*obs, error) {
 	for t, spans := range q {
 		for _, s := range spans {
 			o.Visible[t] = append(o.Visible[t], s.ID)
-			want := len(trace.C13Payload(spanDefSafe(s.ID)))
-			if s.Payload != "payload-"+s.ID || s.Tag != s.ID || !strings.HasPrefix(s.ID, t) || s.PayloadLen != want || !s.ZeroTail {
+			def := spanDefSafe(s.ID)
+			want := def.Size
+			if h := len("payload-" + s.ID); want < h {
+				want = h
+			}
+			tailOK := s.ZeroTail
+			if def.Rand && want > len("payload-"+s.ID) {
+				tailOK = s.RandTail
+			}
+			if s.Payload != "payload-"+s.ID || s.Tag != s.ID || !strings.HasPrefix(s.ID, t) || s.PayloadLen != want || !tailOK {
 				o.Corrupt = append(o.Corrupt, fmt.Sprintf("%s:%s payload=%q len=%d (want %d) tag=%q", t, s.ID, s.Payload, s.PayloadLen, want, s.Tag))
 			}
 		}
@@ -335,7 +399,7 @@ func observe(tb *trace.C13Table, light bool) (*obs, error) {
 	for i, p := range parts {
 		byID[p.ID] = i
 		o.Parts = append(o.Parts, partObs{ID: p.ID, Mem: p.Mem, MinTS: p.MinTS, MaxTS: p.MaxTS, Gen: p.FinalizeGen, Total: p.TotalCount,
-			Blocks: p.Blocks, Traces: p.Traces, Bloom: p.Bloom})
+			Blocks: p.Blocks, Traces: p.Traces, Bloom: p.Bloom, Seg: p.Seg})
 	}
 	for _, r := range rows {
 		o.Sidx[r.Trace] = append(o.Sidx[r.Trace], r.Key)
@@ -485,7 +549,7 @@ func apply(tb *trace.C13Table, smp *sampler, op Op, cur *obs) (stepInfo, error) 
 		if op.Mid == "" {
 			return
 		}
-		f := func() { si.midFired = true; tb.Write(toSpans(op.MidBatch)) }
+		f := func() { si.midFired = true; tb.WriteSeg(toSpans(op.MidBatch), segID(op.MidSeg)) }
 		switch op.Mid {
 		case "W2":
 			tb.SetMid(f)
@@ -504,10 +568,11 @@ func apply(tb *trace.C13Table, smp *sampler, op Op, cur *obs) (stepInfo, error) 
 	intro0, rej0 := tb.Counters()
 	if smp != nil {
 		smp.seen = map[string]int{} // "was the sampler asked about this trace" is per step
+		smp.views = nil
 	}
 	switch op.K {
 	case "W":
-		tb.Write(toSpans(op.Batch))
+		tb.WriteSeg(toSpans(op.Batch), segID(op.Seg))
 		si.outcome = "W"
 	case "F":
 		if tb.Flush() {
@@ -564,6 +629,14 @@ func apply(tb *trace.C13Table, smp *sampler, op Op, cur *obs) (stepInfo, error) 
 
 func needsObs(op Op) bool { return op.K == "M" }
 
+// segID maps a segment ordinal of the alphabet to the id the liaison write path would pass (the segment's start time).
+func segID(k int) int64 {
+	if k <= 0 {
+		return 0
+	}
+	return int64(k) * 24 * hour
+}
+
 // checkStep is the oracle for one transition pre --op--> post.  It returns the violations and the model after the op.
 func checkStep(c Cfg, op Op, si stepInfo, m model, pre, post *obs, smp *sampler) ([]viol, model, []string) {
 	var vs []viol
@@ -616,11 +689,28 @@ func checkStep(c Cfg, op Op, si stepInfo, m model, pre, post *obs, smp *sampler)
 			notes = append(notes, "oversized-merge-without-decide-call")
 		}
 	}
+	if mergeLike && smp != nil {
+		for _, bad := range checkViews(pre, smp.views) {
+			add(bad.class, bad.trace, "", bad.detail)
+		}
+		notes = append(notes, fmt.Sprintf("sampler-views-checked=%d", len(smp.views)))
+	}
 	for _, t := range traceIDs {
 		full := sortedCopy(append(append([]string(nil), m.Expect[t]...), written[t]...))
 		got := post.Visible[t]
 		dropOK := false
 		why := ""
+		proposes := wouldDrop(c, t)
+		if c.Sampler == "short" { // content-dependent sampler: it proposed a drop iff it returned one for a view of t in this step
+			proposes = false
+			if smp != nil {
+				for _, v := range smp.views {
+					if v.Trace == t && !v.Keep {
+						proposes = true
+					}
+				}
+			}
+		}
 		if mergeLike {
 			outside := len(written[t]) > 0
 			if outside {
@@ -642,7 +732,7 @@ func checkStep(c Cfg, op Op, si stepInfo, m model, pre, post *obs, smp *sampler)
 				why = " reason=no-sampler"
 			case !samplerActive(c, op.K):
 				why = " reason=sampler-not-active-for-this-event"
-			case !wouldDrop(c, t):
+			case !proposes:
 				if why == "" {
 					why = " reason=sampler-did-not-drop"
 					if strings.HasPrefix(c.Sampler, "error") || strings.HasPrefix(c.Sampler, "panic") || strings.HasPrefix(c.Sampler, "mismatch") {
@@ -657,7 +747,7 @@ func checkStep(c Cfg, op Op, si stepInfo, m model, pre, post *obs, smp *sampler)
 				dropOK = true
 			}
 			// vacuity bookkeeping
-			if wouldDrop(c, t) && samplerActive(c, op.K) && len(m.Expect[t]) > 0 {
+			if proposes && samplerActive(c, op.K) && len(m.Expect[t]) > 0 {
 				switch {
 				case len(got) == 0 && dropOK:
 					notes = append(notes, "dropped-whole-trace")
@@ -756,6 +846,63 @@ func checkStep(c Cfg, op Op, si stepInfo, m model, pre, post *obs, smp *sampler)
 		}
 	}
 	return vs, nm, notes
+}
+
+type viewViol struct{ class, trace, detail string }
+
+// checkViews is the "sampled as a whole" clause: whatever a Decide call is shown of a trace must be ALL spans that
+// trace has in some set of whole parts of the state before the step (the merge's inputs; which parts a finalize round
+// or a mem-merge selects is left to the implementation), never a piece of a part's portion of the trace, and one
+// Decide call must not contain the same trace twice.  Views are compared by time bounds (always handed to the
+// sampler) and, with a projecting sampler, by span ids.
+func checkViews(pre *obs, views []view) []viewViol {
+	var out []viewViol
+	type key struct {
+		t string
+		c int
+	}
+	inCall := map[key]int{}
+	reported := map[string]bool{}
+	for _, v := range views {
+		inCall[key{v.Trace, v.Call}]++
+		if inCall[key{v.Trace, v.Call}] == 2 && !reported["twice:"+v.Trace] {
+			reported["twice:"+v.Trace] = true
+			out = append(out, viewViol{"sampler-saw-trace-twice-in-one-batch", v.Trace, fmt.Sprintf("Decide call %d contains the trace more than once", v.Call)})
+		}
+		var holders [][]string // per part that holds the trace: its spans
+		for _, p := range pre.Parts {
+			if len(p.Traces[v.Trace]) > 0 {
+				holders = append(holders, p.Traces[v.Trace])
+			}
+		}
+		if len(holders) > 12 {
+			holders = holders[:12]
+		}
+		ok := false
+		var cands []string
+		for mask := 1; mask < 1<<len(holders) && !ok; mask++ {
+			var ids []string
+			for i := range holders {
+				if mask&(1<<i) != 0 {
+					ids = append(ids, holders[i]...)
+				}
+			}
+			sort.Strings(ids)
+			lo, hi := int64(math.MaxInt64), int64(math.MinInt64)
+			for _, id := range ids {
+				ts := spanDefSafe(id).TS
+				lo, hi = min(lo, ts), max(hi, ts)
+			}
+			ok = lo == v.MinTS && hi == v.MaxTS && (len(v.SpanIDs) == 0 || eqStr(sortedCopy(v.SpanIDs), ids))
+			cands = append(cands, fmt.Sprintf("%v[%d..%d]", ids, lo, hi))
+		}
+		if !ok && !reported["frag:"+v.Trace] {
+			reported["frag:"+v.Trace] = true
+			out = append(out, viewViol{"sampler-saw-trace-fragment", v.Trace, fmt.Sprintf("Decide call %d was handed spans %v time bounds [%d..%d] (verdict keep=%v); the whole-part portions of the trace before the step are %v",
+				v.Call, v.SpanIDs, v.MinTS, v.MaxTS, v.Keep, cands)})
+		}
+	}
+	return out
 }
 
 type execResult struct {
@@ -965,9 +1112,18 @@ func enabledOps(c Cfg, m model, o *obs) []Op {
 			files = append(files, i)
 		}
 	}
+	segs := []int{0}
+	if c.Segs > 0 {
+		segs = segs[:0]
+		for k := 1; k <= c.Segs; k++ {
+			segs = append(segs, k)
+		}
+	}
 	if m.Batches < maxBatches {
 		for _, b := range nextBatches(c, m, false) {
-			ops = append(ops, Op{K: "W", Batch: b})
+			for _, k := range segs {
+				ops = append(ops, Op{K: "W", Batch: b, Seg: k})
+			}
 		}
 	}
 	if memN > 0 {
@@ -977,9 +1133,11 @@ func enabledOps(c Cfg, m model, o *obs) []Op {
 	mids = append(mids, Op{})
 	if m.Batches < maxBatches {
 		for _, b := range nextBatches(c, m, true) {
-			mids = append(mids, Op{Mid: "W2", MidBatch: b})
-			if c.Sampler != "none" {
-				mids = append(mids, Op{Mid: "W1", MidBatch: b})
+			for _, k := range segs {
+				mids = append(mids, Op{Mid: "W2", MidBatch: b, MidSeg: k})
+				if c.Sampler != "none" {
+					mids = append(mids, Op{Mid: "W1", MidBatch: b, MidSeg: k})
+				}
 			}
 		}
 	}
@@ -996,7 +1154,7 @@ func enabledOps(c Cfg, m model, o *obs) []Op {
 	for _, b := range bases {
 		for _, d := range mids {
 			op := b
-			op.Mid, op.MidBatch = d.Mid, d.MidBatch
+			op.Mid, op.MidBatch, op.MidSeg = d.Mid, d.MidBatch, d.MidSeg
 			ops = append(ops, op)
 		}
 	}
@@ -1085,7 +1243,7 @@ func runUnit(u unit, deadline time.Time) unitResult {
 		r.OpKinds[k]++
 		r.Outcomes[res.outcome]++
 		for _, n := range res.notes {
-			r.Notes[n]++
+			addNote(r.Notes, "", n)
 		}
 		if strings.HasSuffix(res.outcome, "ERROR") {
 			r.OpErrors++
@@ -1127,7 +1285,11 @@ func runUnit(u unit, deadline time.Time) unitResult {
 		}
 		frontier = append(frontier, node{ops: h.Ops, model: res.model, digest: res.digest, obs: res.post})
 	}
-	step(nil, Op{K: "W", Batch: u.First})
+	firstSeg := 0
+	if u.Cfg.Segs > 0 {
+		firstSeg = 1 // segment ids are only compared for equality (both non-zero): the first batch is in segment 1 w.l.o.g.
+	}
+	step(nil, Op{K: "W", Batch: u.First, Seg: firstSeg})
 	for depth := 1; depth < u.Depth && r.HarnessErr == ""; depth++ {
 		cur := frontier
 		frontier = nil
@@ -1158,7 +1320,7 @@ type cfgSpec struct {
 }
 
 func specs(thorough bool) []cfgSpec {
-	const s4, s5 = "A1,A2,A3,B1", "A1,A2,A3,B1,B2"
+	const s4, s5, s22 = "A1,A2,A3,B1", "A1,A2,A3,B1,B2", "A1,A2,B1,B2"
 	lay := func(smp, clk string) Cfg { return Cfg{Sampler: smp, Clock: clk, Mode: "layout", Spans: s5} }
 	slow := func(c Cfg) Cfg { c.ForceSlow = true; return c }
 	proj := func(c Cfg) Cfg { c.FullProj = true; return c }
@@ -1182,6 +1344,9 @@ func specs(thorough bool) []cfgSpec {
 			{proj(lay("drop-A", "mature")), 4},
 			{slow(Cfg{Sampler: "none", Clock: "mature", Mode: "full", Spans: s4}), 4},
 			{lay("none", "mature"), 4},
+			// round 2: memory parts of two segments in one table (liaison write queue), every assignment of batches to segments
+			{Cfg{Sampler: "none", Clock: "mature", Mode: "layout", Spans: s22, Segs: 2}, 5},
+			{Cfg{Sampler: "drop-A", Clock: "mature", Mode: "layout", Spans: s22, Segs: 2}, 4},
 		}
 	}
 	var out []cfgSpec
@@ -1203,6 +1368,9 @@ func specs(thorough bool) []cfgSpec {
 		cfgSpec{slow(Cfg{Sampler: "none", Clock: "mature", Mode: "full", Spans: s5}), 5},
 		cfgSpec{lay("none", "mature"), 6},
 		cfgSpec{Cfg{Sampler: "none", Clock: "mature", Mode: "full", Spans: s4}, 6},
+		cfgSpec{Cfg{Sampler: "none", Clock: "mature", Mode: "layout", Spans: s5, Segs: 2}, 6},
+		cfgSpec{Cfg{Sampler: "drop-A", Clock: "mature", Mode: "layout", Spans: s5, Segs: 2}, 5},
+		cfgSpec{Cfg{Sampler: "drop-all", Clock: "partial", Mode: "layout", Spans: s22, Segs: 3}, 5},
 	)
 	return out
 }
@@ -1214,10 +1382,23 @@ func units(thorough bool) []unit {
 			us = append(us, unit{Cfg: sp.c, First: b, Depth: sp.d})
 		}
 	}
+	// last: these histories are heavy (18 MiB each) and not subject to the search deadline; they must not starve the search
+	us = append(us, batchEdgeUnits(thorough)...)
 	return us
 }
 
 // ---------------------------------------------------------------------------------------------------------------
+
+// addNote counts a note; "name=N" notes are summed.
+func addNote(m map[string]int, prefix, n string) {
+	if i := strings.IndexByte(n, '='); i > 0 {
+		if v, err := strconv.Atoi(n[i+1:]); err == nil {
+			m[prefix+n[:i]] += v
+			return
+		}
+	}
+	m[prefix+n]++
+}
 
 func replay(path string) int {
 	b, err := os.ReadFile(path)
